@@ -25,6 +25,10 @@ def run(ctx):
         K.rank_fitness(t)
         if not any(e["e"] == "done" for e in t["events"]):
             ctx.violation("calib.failed", f"calibration failed: {t['events'][-1]}", t["case"], {})
+        # the data reported for an island were produced with the parameters reported for that island
+        sim = t["meta"].get("simulated")
+        if sim not in (None, "ok"):
+            ctx.violation("reported.simulated", f"simulated data reported with the champions: {sim}", t["case"], {})
     K.validate(ctx, full, [K.strip_calib(t, "C10") for t in full], "full", "C10")
     ctx.assumptions += ["decision vectors of complete calibrations are real numbers: box, boundaries and layout are "
                         "checked by TLC on values scaled by 10^6 (bounds rounded outward); value = 10^component of "
